@@ -902,7 +902,7 @@ class SymPath:
             if self.absolute != o.absolute or len(self.parts_) != len(o.parts_):
                 return False
             return sym_eq(tuple(self.parts_), tuple(o.parts_))
-        if hasattr(o, 'parts') and hasattr(o, 'is_absolute') and not isinstance(o, str):
+        if not isinstance(o, (str, Sym)) and hasattr(o, 'parts') and hasattr(o, 'is_absolute'):
             return self.__eq__(to_sympath(o))
         return False
 
